@@ -17,7 +17,7 @@ for sid, res in sorted(rows.items()):
     else:
         old.update(res)
     res = m["checks_run"]["results"]
-    m["checks_run"]["how"] = "tools/rerun_seeded.sh: patch.diff applied to a scratch copy of /repo in a private mount namespace, ./check <P> quick for the checks listed, copy discarded"
+    m["checks_run"].setdefault("how", "tools/rerun_seeded.sh")
     m["checks_run"]["rerun_at"] = time.strftime("%Y-%m-%d")
     m["caught_by"] = [p for p in sorted(res) if res[p]["exit"] == 1]
     m["caught_by_target_property"] = m["breaks_property"] in m["caught_by"]
